@@ -284,6 +284,8 @@ func gen(r *vh.Rand, tier string) []string {
 	out = append(out, noSourceCases()...)
 	out = append(out, jbadBoundary(r)...)
 	out = append(out, vsrcBoundary(r)...)
+	out = append(out, r6OtherBoundary(r)...)
+	out = append(out, ctagBoundary()...)
 	formats := []string{"uri", "uripost", "raw", "json"}
 	for i := 0; i < n; i++ {
 		for _, fm := range formats {
@@ -345,6 +347,8 @@ func gen(r *vh.Rand, tier string) []string {
 		out = append(out, cfghdrsRandom(r), cfghdrsRandom(r))
 		out = append(out, jbadRandom(r), jbadRandom(r))
 		out = append(out, vsrcRandom(r), vsrcRandom(r))
+		out = append(out, vsrcVarsLine(r, r.Range(1, 4), r.Chance(2, 3)))
+		out = append(out, ctagRandom(r), ctagRandom(r))
 		out = append(out, strings.TrimRight(fmt.Sprintf("wfile %s %s %s", r.Pick(scenarioExts), r.Pick([]string{"http", "grpc"}), strings.Join(genWeights(r), " ")), " "))
 		{ // a mutated description of every format through the real provider constructor (fuzzed only)
 			ext := r.Pick([]string{"hcl", "hcl", "yaml", "yml"})
